@@ -710,6 +710,11 @@ class SymEx:
                 c = self.operand(st, t['discr'])
                 c = _known_cmp(st, c)
                 targets = t['targets']
+                otherwise = t['otherwise']
+                # `if !x` is `if x` with the arms exchanged: branch events are recorded on x itself
+                while c[0] == 'un' and c[1] == 'Not' and [v for v, _ in targets] == [0]:
+                    c = c[2]
+                    targets, otherwise = [(0, otherwise)], targets[0][1]
                 if c[0] == 'discr' and strip_refs(c[1])[0] == 'adt':
                     dv = adt_discr(strip_refs(c[1]))      # a match on a literal enum value takes one arm
                     if dv is not None:
@@ -720,14 +725,14 @@ class SymEx:
                     targets = [({0: 1, 1: 0}.get(v, v), b2) for v, b2 in targets]
                 choice = None
                 if c[0] == 'const' and isinstance(c[1], int):
-                    choice = t['otherwise']
+                    choice = otherwise
                     for v, b2 in targets:
                         if v == c[1]:
                             choice = b2
                     nxt = [choice]
                 elif c in st.decided:
                     v0 = st.decided[c]
-                    choice = t['otherwise']
+                    choice = otherwise
                     if v0 != 'else':
                         for v, b2 in targets:
                             if v == v0:
@@ -742,8 +747,8 @@ class SymEx:
                     # `otherwise` edge that leads straight to `unreachable` (exhaustive match)
                     excl = st.excluded.get(c, ())
                     opts = [(v, b2) for v, b2 in targets if v not in excl]
-                    if body.blocks[t['otherwise']]['term']['k'] != 'unreachable' or not opts:
-                        opts = opts + [('else', t['otherwise'])]
+                    if body.blocks[otherwise]['term']['k'] != 'unreachable' or not opts:
+                        opts = opts + [('else', otherwise)]
                     allowed = []
                     for v, b2 in opts:
                         if st.visits[b2 if st.fid == 0 else (st.fid, b2)] < self.max_visits:
